@@ -295,6 +295,21 @@ func (x *ctx) cosets(rng *rand.Rand) {
 		}
 		wantKK := ref.RistrettoEncode(ref.B.Mul(kk))
 		wantSum := ref.RistrettoEncode(ref.B.Mul(new(big.Int).Add(kk, k2)))
+		// a table and an expansion built from a point object that the caller changes before their first use
+		{
+			src := x.h.RVal(rbase)
+			rt := curve.NewRistrettoBasepointTable(src)
+			rx := curve.NewExpandedRistrettoPoint(src)
+			src.Add(src, other)
+			algos["NewRistrettoBasepointTable(P); P changed; MulBasepoint"] = func() *curve.RistrettoPoint { return x.h.R().MulBasepoint(rt, sc) }
+			algos["NewExpandedRistrettoPoint(P); P changed; ExpandedDoubleScalarMulBasepointVartime"] = func() *curve.RistrettoPoint {
+				return x.h.R().ExpandedDoubleScalarMulBasepointVartime(sc, rx, zero)
+			}
+			r.Eval(nil)
+			if got := renc(rt.Basepoint()); !bytes.Equal(got, renc(rbase)) {
+				r.Violate("ristretto/NewRistrettoBasepointTable/tracks-its-argument", fmt.Sprintf("Basepoint() = %x after the caller changed its point, the table was built for %x; %s", got, renc(rbase), det()), x.c)
+			}
+		}
 		// an expansion whose object used to stand for another element, a value copy of which is still alive
 		xq, oldCopy, oldPoint := x.h.XR(rbase)
 		algos["ExpandedDoubleScalarMulBasepointVartime(re-targeted expansion)"] = func() *curve.RistrettoPoint {
